@@ -72,6 +72,47 @@ type c14Case struct {
 	Callbacks []string    `json:"callbacks"`
 	Predicate string      `json:"predicate,omitempty"`
 	Pass      bool        `json:"predicate_passes,omitempty"`
+	// Returns: what every callback returns - "" a sentinel of its own, "nil",
+	// or one of the library's own unmatched errors (a callback that itself
+	// uses a resolver hands those back)
+	Returns string `json:"callbacks_return,omitempty"`
+	// Impostor: the typed value reports another name ("name") or another
+	// vocabulary ("vocab") than its Go type's
+	Impostor string `json:"impostor,omitempty"`
+	// SingleContext: the document's @context is one string, not the list
+	SingleContext bool `json:"single_context,omitempty"`
+	// Again: the resolver is used a second time, for a value of this type
+	Again string `json:"again,omitempty"`
+}
+
+// impostors wrap a real value and answer GetTypeName / VocabularyURI with
+// something else: what decides a resolver's choice is that answer.
+type impNote struct {
+	vocab.ActivityStreamsNote
+	name, uri string
+}
+
+func (i impNote) GetTypeName() string   { return i.name }
+func (i impNote) VocabularyURI() string { return i.uri }
+
+type impEmoji struct {
+	vocab.TootEmoji
+	name, uri string
+}
+
+func (i impEmoji) GetTypeName() string   { return i.name }
+func (i impEmoji) VocabularyURI() string { return i.uri }
+
+func libraryErr(name string) error {
+	switch name {
+	case "ErrUnhandledType":
+		return streams.ErrUnhandledType
+	case "ErrNoCallbackMatch":
+		return streams.ErrNoCallbackMatch
+	case "ErrPredicateUnmatched":
+		return streams.ErrPredicateUnmatched
+	}
+	return nil
 }
 
 func typeDoc(key string) map[string]interface{} {
@@ -87,13 +128,16 @@ func c14Exec(r *verdict.Run, cs c14Case) {
 	cbs := make([]interface{}, len(cs.Callbacks))
 	for i, k := range cs.Callbacks {
 		sentinels[i] = fmt.Errorf("sentinel-%d-%s", i, k)
+		if cs.Returns != "" {
+			sentinels[i] = libraryErr(cs.Returns) // nil for "nil"
+		}
 		cbs[i] = mkCallback(k, i, &log, sentinels[i])
 	}
 	// expectation, from names only
 	own := cs.Value
 	unknownType := O.Types[own] == nil
 	want := -1
-	if !unknownType {
+	if !unknownType && cs.Impostor == "" {
 		for i, k := range cs.Callbacks {
 			if k == own {
 				want = i
@@ -122,7 +166,28 @@ func c14Exec(r *verdict.Run, cs c14Case) {
 		if cs.TypeField != nil {
 			m["type"] = cs.TypeField
 		}
+		if cs.SingleContext && !unknownType {
+			m["@context"] = O.Types[own].VocabURI
+		}
 		err = res.Resolve(bg, m)
+		if cs.Again != "" {
+			// the same resolver, another value: judged like a first use
+			first, firstErr := append([]cbCall{}, log...), err
+			log = log[:0]
+			err = res.Resolve(bg, typeDoc(cs.Again))
+			second := append([]cbCall{}, log...)
+			w2 := -1
+			for i, k := range cs.Callbacks {
+				if k == cs.Again {
+					w2 = i
+					break
+				}
+			}
+			if w2 >= 0 && (len(second) != 1 || second[0].Index != w2 || err != sentinels[w2]) || w2 < 0 && (len(second) != 0 || !streams.IsUnmatchedErr(err)) {
+				viol("call-count", fmt.Sprintf("second use of one resolver for a %s: calls %v err %v, want callback index %d", cs.Again, second, err, w2))
+			}
+			log, err = first, firstErr
+		}
 	case "TypeResolver":
 		res, cerr := streams.NewTypeResolver(cbs...)
 		if cerr != nil {
@@ -133,7 +198,26 @@ func c14Exec(r *verdict.Run, cs c14Case) {
 		if v == nil {
 			return
 		}
-		err = res.Resolve(bg, v)
+		var val streams.ActivityStreamsInterface = v
+		switch {
+		case cs.Impostor != "" && own == "ActivityStreamsNote":
+			n, _ := v.(vocab.ActivityStreamsNote)
+			if cs.Impostor == "name" {
+				val = impNote{n, "Nope", O.Types[own].VocabURI}
+			} else {
+				val = impNote{n, "Note", "http://joinmastodon.org/ns"}
+			}
+		case cs.Impostor != "" && own == "TootEmoji":
+			n, _ := v.(vocab.TootEmoji)
+			if cs.Impostor == "name" {
+				val = impEmoji{n, "Emojo", O.Types[own].VocabURI}
+			} else {
+				val = impEmoji{n, "Emoji", "https://www.w3.org/ns/activitystreams"}
+			}
+		case cs.Impostor != "":
+			return
+		}
+		err = res.Resolve(bg, val)
 	case "TypePredicatedResolver":
 		del, cerr := streams.NewTypeResolver(cbs...)
 		if cerr != nil {
@@ -293,6 +377,44 @@ func runC14(id string) int {
 		_, err := streams.ToType(bg, map[string]interface{}{"@context": allContexts(), "type": u})
 		if !streams.IsUnmatchedErr(err) {
 			r.Violate(verdict.Sig{Rule: "C14.totype-unknown", Site: "streams.ToType", Feature: "unknown-type"}, u, fmt.Sprint(err))
+		}
+	}
+	// callbacks that return nil, or one of the library's own errors: handed
+	// back unchanged, nothing else invoked
+	for _, ret := range []string{"nil", "ErrUnhandledType", "ErrNoCallbackMatch", "ErrPredicateUnmatched"} {
+		for _, res := range []string{"JSONResolver", "TypeResolver", "TypePredicatedResolver"} {
+			for ki, k := range keys {
+				if ki%4 != 0 && *tier != "thorough" {
+					continue
+				}
+				cs := c14Case{Resolver: res, Value: k, Callbacks: []string{keys[(ki+7)%len(keys)], k, k}, Returns: ret}
+				if res == "TypePredicatedResolver" {
+					cs.Predicate, cs.Pass = k, true
+				}
+				c14Exec(r, cs)
+			}
+		}
+	}
+	// values whose Go type says one thing and whose name / vocabulary another
+	for _, own := range []string{"ActivityStreamsNote", "TootEmoji"} {
+		for _, imp := range []string{"name", "vocab"} {
+			c14Exec(r, c14Case{Resolver: "TypeResolver", Value: own, Callbacks: []string{"ActivityStreamsObject", own, "ActivityStreamsNote", "TootEmoji"}, Impostor: imp})
+		}
+	}
+	// one resolver used twice; documents with a single-string @context; more type-array shapes
+	for ki, k := range keys {
+		other := keys[(ki+11)%len(keys)]
+		c14Exec(r, c14Case{Resolver: "JSONResolver", Value: k, Callbacks: []string{other, k}, Again: other})
+		c14Exec(r, c14Case{Resolver: "JSONResolver", Value: k, Callbacks: []string{k}, Again: other})
+		if O.Types[k].VocabURI == "https://www.w3.org/ns/activitystreams" {
+			c14Exec(r, c14Case{Resolver: "JSONResolver", Value: k, Callbacks: []string{other, k}, SingleContext: true})
+		}
+		name := O.Types[k].Name
+		for _, tf := range []interface{}{[]interface{}{name}, []interface{}{name, "Unknown2"}, []interface{}{"Unknown1", "Unknown2", name}, []interface{}{7, nil, name}} {
+			c14Exec(r, c14Case{Resolver: "JSONResolver", Value: k, Callbacks: []string{other, k}, TypeField: tf})
+		}
+		for _, tf := range []interface{}{[]interface{}{}, []interface{}{"Unknown1", "Unknown2"}, 7.0, map[string]interface{}{"x": 1}, true} {
+			c14Exec(r, c14Case{Resolver: "JSONResolver", Value: "Nope-" + name, Callbacks: []string{other, k}, TypeField: tf})
 		}
 	}
 	// random lists
